@@ -38,7 +38,8 @@ type Event struct {
 	InVar int `json:"in_var,omitempty"` // see InVariants
 	InSet int `json:"in_set,omitempty"` // set whose members sign
 	LB    int `json:"lb,omitempty"`     // which pending loopback
-	DtSec int `json:"dt_sec,omitempty"` // tick: virtual seconds that pass before the cleanup tick
+	DtSec int  `json:"dt_sec,omitempty"` // tick: virtual seconds before the cleanup tick; budget: retry count to set
+	FullQ bool `json:"full_q,omitempty"` // tick: the outbound re-observation request queue is full during the tick
 }
 
 func (e Event) String() string {
@@ -57,7 +58,12 @@ func (e Event) String() string {
 	case "inject":
 		return fmt.Sprintf("Inject(%d)", e.M)
 	case "tick":
+		if e.FullQ {
+			return fmt.Sprintf("Tick(+%ds,request queue full)", e.DtSec)
+		}
 		return fmt.Sprintf("Tick(+%ds)", e.DtSec)
+	case "budget":
+		return fmt.Sprintf("SetRetryCount(m=%d,%d)", e.M, e.DtSec)
 	}
 	return e.Kind
 }
@@ -134,6 +140,8 @@ func (c *Config) Materialise(n *Node, e Event) interface{} {
 		return processor.VerifInject{V: c.Msgs[e.M].VAA(0)}
 	case "tick":
 		return processor.VerifTick{}
+	case "budget":
+		return nil
 	}
 	panic("unknown event kind " + e.Kind)
 }
